@@ -26,7 +26,8 @@ Section Exact.
     nodd to_file = true -> do_copyfile c (SReg m t d) to_file mk s = (s', Ok b) ->
     b = true /\ cleanp to_file <> [] /\ lookup (s_fs s') (cleanp to_file) = Some (NFile m t d).
   Proof.
-    intros Hn H. unfold do_copyfile, bind, query in H. rewrite NoOC in H.
+    intros Hn H. unfold do_copyfile, copy_to, bind, query in H. rewrite NoOC in H.
+    change (src_create (SReg m t d) to_file) with (fun f => m_write f to_file m t d) in H.
     assert (forall s1 s2 b2, (mutate c (fun f => m_write f to_file m t d) ;;; log (LPath to_file) ;;; ret true) s1 = (s2, Ok b2) ->
                              b2 = true /\ cleanp to_file <> [] /\ lookup (s_fs s2) (cleanp to_file) = Some (NFile m t d)) as Tail.
     { intros s1 s2 b2 X. unfold bind, mutate, log, ret in X. rewrite Dry in X.
